@@ -9,11 +9,11 @@ Open Scope Z_scope.
 
 (* ---------- the top-level call (NIL data indexer) from the nested-position lemma ---------- *)
 
-Lemma top_from_nested x fs v s X :
+Lemma top_from_nested x fs R s X :
   p_dec (proc_of (TMsg x fs)) (cls_of [(1, TMsg x fs)]) (VM [(1, py_default (TMsg x fs))]) 1 []
-        {| cs := s; ci := 0 |} = Ok (VM [(1, canon (TMsg x fs) v)], X) ->
+        {| cs := s; ci := 0 |} = Ok (VM [(1, R)], X) ->
   p_dec (proc_of (TMsg x fs)) nil_cls (py_default (TMsg x fs)) (-1) [] {| cs := s; ci := 0 |} =
-  Ok (canon (TMsg x fs) v, X).
+  Ok (R, X).
 Proof.
   rewrite proc_of_msg, !p_dec_msg. cbn zeta.
   change (di_is_valid 1) with true. change (di_is_valid (-1)) with false. cbv iota.
@@ -56,7 +56,7 @@ Proof.
   pose proof (dec_ok_all T (cls_of [(1, T)]) [(1, py_default T)] 1 [] (py_default T) v (wire t v) 0
                          Hw Hg Ht) as H.
   rewrite ET in *.
-  rewrite (top_from_nested x fs v (wire t v) {| cs := wire t v; ci := 0 + nbits (TMsg x fs) |}).
+  rewrite (top_from_nested x fs (canon (TMsg x fs) v) (wire t v) {| cs := wire t v; ci := 0 + nbits (TMsg x fs) |}).
   - reflexivity.
   - apply H; try lia; try reflexivity; try apply pack_bytes_ok; try exact Hslice.
     apply (dreach_field [(1, TMsg x fs)] 1 (TMsg x fs)); [reflexivity|now left].
